@@ -62,6 +62,24 @@ class Check:
         self.obs.append(Obligation(rule, construct, bool(ok), loc, message, facts))
         return bool(ok)
 
+    def adopt(self, other: "Check", pred=None, rule: Optional[str] = None) -> int:
+        """take over the obligations another property's rule function produced
+        (shared rules are reported under every property they break)"""
+        n = 0
+        for o in other.obs:
+            if pred is not None and not pred(o):
+                continue
+            self.obs.append(Obligation(rule or o.rule, o.construct, o.ok, o.loc, o.message, o.facts))
+            n += 1
+        self.functions |= other.functions
+        self.call_sites += other.call_sites
+        for k, v in other.rule_text.items():
+            self.rule_text.setdefault(k, v)
+        return n
+
+    def sub(self) -> "Check":
+        return Check(self.prop, self.repo, self.tier)
+
     def saw(self, fi: Any) -> None:
         self.functions.add(fi.qualname if hasattr(fi, "qualname") else str(fi))
 
